@@ -7,6 +7,7 @@ V: an independent plain-Python statement of the property (whole-image pixel sets
    clauses (locality, relabelling, row order, all-masked -> NaN) are run on the
    implementation directly.
 """
+import json
 import math
 import warnings
 from fractions import Fraction
@@ -292,19 +293,23 @@ class ImplTimeout(Exception):
     pass
 
 
-def build_catalog(case, seg=None):
+def build_catalog(case, seg=None, keep=None):
+    """`keep` (a dict) receives the very objects handed to SourceCatalog."""
     from photutils.segmentation import SegmentationImage, SourceCatalog
     seg = case['seg'] if seg is None else seg
     segm = SegmentationImage(seg.copy())
     dt = case.get('dtype')
     detcat = None
+    args = dict(data=_stored(case['data'], dt), conv=_stored(case['conv'], dt),
+                err=_stored(case['err'], dt, is_err=True), mask=_cp(case['mask']), bkg=_stored(case['bkg'], dt))
     if case['det'] is not None:
         d = case['det']
-        detcat = SourceCatalog(_stored(d['data'], dt), segm, convolved_data=_stored(d['conv'], dt),
-                               mask=_cp(d['mask']))
-    return SourceCatalog(_stored(case['data'], dt), segm, convolved_data=_stored(case['conv'], dt),
-                         error=_stored(case['err'], dt, is_err=True), mask=_cp(case['mask']),
-                         background=_stored(case['bkg'], dt), detection_cat=detcat)
+        args.update(ddata=_stored(d['data'], dt), dconv=_stored(d['conv'], dt), dmask=_cp(d['mask']))
+        detcat = SourceCatalog(args['ddata'], segm, convolved_data=args['dconv'], mask=args['dmask'])
+    if keep is not None:
+        keep.update(args, segm=segm)
+    return SourceCatalog(args['data'], segm, convolved_data=args['conv'], error=args['err'], mask=args['mask'],
+                         background=args['bkg'], detection_cat=detcat)
 
 
 def derive(case, cat):
@@ -754,6 +759,180 @@ def shape_support(cat, sps):
 
 
 # --------------------------------------------------------------------------
+# ownership: whatever the catalog hands out belongs to the caller
+# --------------------------------------------------------------------------
+# Every per-source quantity of the statement (+ the aliases / derived columns of to_table).
+SNAP = ('labels', 'label', 'bbox_xmin', 'bbox_xmax', 'bbox_ymin', 'bbox_ymax', 'segment_area', 'area', 'moments',
+        'cutout_centroid', 'centroid', 'xcentroid', 'ycentroid', 'covariance', 'covar_sigx2', 'covar_sigxy',
+        'covar_sigy2', 'segment_flux', 'segment_fluxerr', 'min_value', 'max_value', 'cutout_minval_index',
+        'cutout_maxval_index', 'minval_index', 'maxval_index', 'minval_xindex', 'minval_yindex', 'maxval_xindex',
+        'maxval_yindex', 'background_sum', 'background_mean', 'semimajor_sigma', 'semiminor_sigma', 'orientation',
+        'eccentricity')
+CUTOUTS = ('data', 'error', 'background', 'segment', 'convdata', 'data_ma', 'error_ma', 'background_ma',
+           'segment_ma', 'convdata_ma')
+OWN_KINDS = ('table-default', 'table-columns', 'child-get_labels', 'child-get_label', 'child-index', 'child-slice',
+             'child-scalar', 'child-copy', 'child-iter', 'cutouts', 'property')
+
+
+def _val(v):
+    return np.array(getattr(v, 'value', v), copy=True)
+
+
+def snapshot(cat):
+    with warnings.catch_warnings():
+        warnings.simplefilter('ignore')
+        return {n: _val(getattr(cat, n)) for n in SNAP}
+
+
+def inputs_state(keep):
+    segm = keep['segm']
+    st = {'segm.data': segm.data.copy(), 'segm.labels': np.array(segm.labels, copy=True),
+          'segm.slices': [tuple((sl.start, sl.stop) for sl in s) for s in segm.slices]}
+    for k in ('data', 'conv', 'err', 'mask', 'bkg', 'ddata', 'dconv', 'dmask'):
+        if keep.get(k) is not None:
+            st[k] = keep[k].copy()
+    return st
+
+
+def _same(a, b):
+    if isinstance(a, list):
+        return a == b
+    return a.shape == b.shape and a.dtype == b.dtype and bool(np.array_equal(a, b, equal_nan=a.dtype.kind == 'f'))
+
+
+def scramble(hr, a):
+    """Edit an array / Quantity / Column / MaskedArray in place the way a caller might."""
+    try:
+        if getattr(a, 'ndim', 0) == 0:
+            return False
+        how = hr.choice(['reverse', 'scale', 'offset', 'fill', 'roll'])
+        if how == 'reverse':
+            a[...] = np.array(a[::-1], copy=True)
+        elif how == 'scale':
+            a *= 3
+        elif how == 'offset':
+            a += 1
+        elif how == 'fill':
+            a[...] = np.array(a).flat[0] * 0 + 7
+        else:
+            a[...] = np.roll(np.array(a, copy=True), 1, axis=0)
+        return True
+    except (ValueError, TypeError):      # read-only or not editable this way: nothing was changed
+        return False
+
+
+def scramble_table(hr, tbl):
+    cols = list(tbl.colnames)
+    for _ in range(hr.randint(1, 4)):
+        how = hr.choice(['sort', 'reverse', 'column', 'column', 'labels'])
+        try:
+            if how == 'sort':
+                one_d = [c for c in cols if tbl[c].ndim == 1]
+                tbl.sort(hr.choice(one_d), reverse=hr.random() < 0.5)
+            elif how == 'reverse':
+                tbl.reverse()
+            elif how == 'labels' and 'label' in cols:
+                tbl['label'][:] = np.array(tbl['label'])[::-1] + hr.choice([0, 100])
+            else:
+                scramble(hr, tbl[hr.choice(cols)])
+        except (ValueError, TypeError):
+            pass
+
+
+def ownership_check(case, kind, hseed):
+    """One history: read (or not) the catalog, take an object the catalog hands out, edit it in
+    place, read the catalog again.  Returns a list of (what, detail): 'property-changed' = a
+    catalog quantity differs from the value of a pristine catalog (= its definition, checked by the
+    oracle on the pristine rows), 'inputs-changed' = the segmentation image or a caller array
+    differs bitwise.
+    Exemption (kind 'property' only): a lazyproperty returns the object stored in the instance
+    ("computes the value only once ... storing the result of its computation in the __dict__ of
+    the object instance", astropy.utils.decorators.lazyproperty), so the edited object itself and
+    whatever shares its memory are the stored value; everything else must be unchanged."""
+    import random
+    hr = random.Random(hseed)
+    c0 = dict(case, ops=[])
+    ref = snapshot(build_catalog(c0))
+    keep = {}
+    cat = build_catalog(c0, keep=keep)
+    before = inputs_state(keep)
+    pre = hr.choice(['all', 'some', 'none'])
+    with warnings.catch_warnings():
+        warnings.simplefilter('ignore')
+        if pre == 'all':
+            snapshot(cat)
+        elif pre == 'some':
+            for n in hr.sample(SNAP, 8):
+                getattr(cat, n)
+        n = cat.nlabels
+        exempt = set()
+        if kind.startswith('table'):
+            tbl = None
+            if kind == 'table-default':
+                try:
+                    tbl = cat.to_table()
+                except ImplTimeout:
+                    raise
+                except Exception as e:      # Kron machinery (outside the statement) failed: use explicit columns
+                    pre += f'; to_table() raised {type(e).__name__}'
+            if tbl is None:
+                cols = ['label'] + hr.sample([c for c in SNAP if c not in ('label', 'labels')], hr.randint(1, 8))
+                tbl = cat.to_table(columns=cols)
+            scramble_table(hr, tbl)
+        elif kind.startswith('child'):
+            labs = [int(v) for v in cat.labels]
+            if kind == 'child-get_labels':
+                children = [cat.get_labels(hr.sample(labs, hr.randint(1, n)))]
+            elif kind == 'child-get_label':
+                children = [cat.get_label(hr.choice(labs))]
+            elif kind == 'child-index':
+                children = [cat[[hr.randrange(n) for _ in range(hr.randint(1, n + 1))]]]
+            elif kind == 'child-slice':
+                a = hr.randrange(n)
+                children = [cat[a:hr.randint(a + 1, n)], cat[::-1]][:hr.randint(1, 2)]
+            elif kind == 'child-scalar':
+                children = [cat[hr.randrange(n)]]
+            elif kind == 'child-copy':
+                children = [cat.copy()]
+            else:
+                children = list(cat)
+            for ch in children:
+                for nm in SNAP:
+                    scramble(hr, getattr(ch, nm))
+                if not ch.isscalar and hr.random() < 0.5:
+                    scramble_table(hr, ch.to_table())
+        elif kind == 'cutouts':
+            for nm in hr.sample(CUTOUTS, hr.randint(1, len(CUTOUTS))):
+                lst = getattr(cat, nm)
+                if lst is None:
+                    continue
+                for a in lst:
+                    if a is not None:
+                        scramble(hr, a)
+        else:
+            nm = hr.choice(SNAP)
+            obj = getattr(cat, nm)
+            scramble(hr, obj)
+            exempt = {m for m in SNAP if np.shares_memory(np.asarray(getattr(cat, m)), np.asarray(obj))}
+            exempt.add(nm)
+        after = snapshot(cat)
+        tbl2 = cat.to_table(columns=[c for c in SNAP if c != 'labels'])
+    problems = []
+    for nm in SNAP:
+        if nm in exempt:
+            continue
+        if not _same(ref[nm], after[nm]):
+            problems.append(('property-changed', nm))
+        if nm != 'labels' and not _same(ref[nm], _val(tbl2[nm])):
+            problems.append(('property-changed', 'to_table:' + nm))
+    now = inputs_state(keep)
+    for k in before:
+        if not _same(before[k], now[k]):
+            problems.append(('inputs-changed', k))
+    return problems, pre
+
+
+# --------------------------------------------------------------------------
 def describe(case):
     def arr(a):
         if a is None:
@@ -933,6 +1112,23 @@ def run(ctx):
                 if d:
                     ctx.violation('SourceCatalog.relabel', f'renumbering labels changed {d}',
                                   {'case': describe(c), 'map': mp, 'label': a, 'fields': d})
+        # ownership: objects handed out by the catalog are edited in place, then everything is re-read
+        for kind in (OWN_KINDS[(2 * i) % len(OWN_KINDS)], OWN_KINDS[(2 * i + 1) % len(OWN_KINDS)]):
+            hseed = rng.getrandbits(32)
+            problems, pre = ownership_check(c, kind, hseed)
+            ctx.stat('ownership', kind)
+            if 'raised' in pre:
+                ctx.stat('ownership', 'to_table() default columns raised (Kron quantities, outside the statement)')
+                if not any('to_table()' in n for n in ctx.notes):
+                    ctx.notes.append('to_table() with default columns raised on: ' + json.dumps(describe(c)))
+            for what in sorted({w for w, _ in problems}):
+                names = sorted({d for w, d in problems if w == what})
+                ctx.violation(f'SourceCatalog.ownership:{kind}:{what}',
+                              f'after editing in place an object handed out by the catalog ({kind}) '
+                              + ('catalog quantities differ from their definitions: ' if what == 'property-changed'
+                                 else 'the segmentation image / caller arrays changed: ') + ', '.join(names[:8]),
+                              {'case': describe(c), 'ownership': [kind, hseed], 'pre_evaluated': pre,
+                               'changed': names, 'cmd': 'bin/check C07 --replay <this file>'})
         if i % 4 == 0:      # support: post-covariance shape parameters, to_table
             own = dict(data=c['data'], conv=c['conv'], err=c['err'], bkg=c['bkg'], mask=c['mask'])
             det = own if c['det'] is None else dict(c['det'], err=None, bkg=None)
@@ -977,6 +1173,14 @@ def run(ctx):
 def replay(obj):
     r = obj['replay']
     case = undescribe(r['case'])
+    if 'ownership' in r:
+        kind, hseed = r['ownership']
+        problems, pre = ownership_check(case, kind, hseed)
+        print(f'history: properties pre-evaluated = {pre}; take {kind}; edit it in place; read the catalog again')
+        for what, name in problems:
+            print(' ', what, name)
+        print('property holds on this input' if not problems else 'property FAILS on this input')
+        return 1 if problems else 0
     try:
         cat, sub, rows = run_impl(case)
     except ImplTimeout:
